@@ -186,6 +186,19 @@ def events(tree, inputs, limit=64):
             elapsed += d
             out.append(e)
         return out
+    if k in ('seq', 'pn'):
+        if k == 'seq':
+            lst = tree[1]
+            o = tree[3] % len(lst)
+            items = (lst[o:] + lst[:o]) * tree[2]
+        else:
+            items = [tree[1]] * tree[2]
+        out, pos = [], 0
+        for t in items:                    # one after the other; each starts from the player's input event
+            evs = events(t, inputs[pos:], limit)
+            out += evs
+            pos += len(evs)
+        return out
     if k == 'par':
         children = [events(t, inputs, limit) for t in tree[1]]
         heap, cnt = [], itertools.count()
@@ -233,6 +246,8 @@ def expected_score(case):
             else:
                 freq = ('midicps', p['freq_arg'], getq(numeric, 'harmonic', 1), getq(numeric, 'detune', 0))
             gated = 'gate' in ctl
+            if 'send_gate' in keys and keys['send_gate'][0] in ('B', 'I', 'F'):
+                gated = bool(Fr(keys['send_gate'][1]))      # an explicit send_gate wins over the instrument's gate
             names = [c for c in ctl if c != 'gate' and (c == 'freq' or c in numeric)]
             params = [(c, freq if c == 'freq' else q(numeric[c])) for c in names]
             if '_mono' in e:
@@ -273,8 +288,9 @@ def midicps_points(tree, proto):
     def walk(t):
         if t[0] == 'bind': vals_of(t[1])
         elif t[0] == 'mono': vals_of(t[2])
-        elif t[0] in ('chain', 'par'):
+        elif t[0] in ('chain', 'par', 'seq'):
             for c in t[1]: walk(c)
+        elif t[0] == 'pn': walk(t[1])
         else: walk(t[2])
     walk(tree)
     vals_of([[k, ['rep', v]] for k, v in proto.items()])
